@@ -121,7 +121,7 @@ func runC16(p *core.Prog, r *core.Result) {
 			r.Bad("R16.1", construct, p.InstrPos(st), "the %s side of the diff is %s: Old()/New() report the operands swapped for some inputs", name, what)
 		})
 	}
-	r.Floor("R16.1", n, 8, "stores into valueDiff.old/new")
+	r.Floor("R16.1", n, 4, "stores into valueDiff.old/new")
 	// pass-through at call sites from DiffDepth
 	vps := valueParams(DiffDepth)
 	for _, c := range core.Calls(DiffDepth) {
@@ -264,7 +264,7 @@ func checkRecordSeq(p *core.Prog, r *core.Result, recordSeq, extend *ssa.Functio
 		return res, true
 	}
 	calls := core.CallsTo(recordSeq, extend)
-	r.Floor("R16.2", len(calls), 3, "extend calls in recordSeq")
+	r.Floor("R16.2", len(calls), 1, "extend calls in recordSeq")
 	for i, c := range calls {
 		args := c.Common().Args // recv, kind, from, loc
 		construct := fmt.Sprintf("diff.(*differ).recordSeq#extend-%d", i+1)
@@ -396,12 +396,38 @@ func checkMappingDiff(p *core.Prog, r *core.Result, diffMapping, DiffDepth *ssa.
 		return ""
 	}
 	seen := map[string]bool{}
+	// edit constructions: Edit literals in diffMapping, or calls to a constructor helper that stores its kind parameter
+	type editSite struct {
+		at   ssa.Instruction
+		kind string
+	}
+	var sites []editSite
 	core.Instrs(diffMapping, func(in ssa.Instruction) {
-		st, ok := in.(*ssa.Store)
-		if !ok || !core.IsField(st.Addr, pkgDiff, "Edit", "kind") {
+		if st, ok := in.(*ssa.Store); ok && core.IsField(st.Addr, pkgDiff, "Edit", "kind") {
+			sites = append(sites, editSite{st, globalsKind(st.Val)})
 			return
 		}
-		kind := globalsKind(st.Val)
+		call, ok := in.(*ssa.Call)
+		if !ok {
+			return
+		}
+		h := core.Callee(call)
+		if h == nil || !core.InModule(h) || h.Blocks == nil || h == diffMapping {
+			return
+		}
+		core.Instrs(h, func(hin ssa.Instruction) {
+			if st, ok := hin.(*ssa.Store); ok && core.IsField(st.Addr, pkgDiff, "Edit", "kind") {
+				if prm, ok := st.Val.(*ssa.Parameter); ok {
+					if j := paramIndex(h, prm); j >= 0 && j < len(call.Call.Args) {
+						sites = append(sites, editSite{call, globalsKind(call.Call.Args[j])})
+					}
+				}
+			}
+		})
+	})
+	for _, es := range sites {
+		st := es.at
+		kind := es.kind
 		construct := "diff.diffMapping#edit:" + kind
 		pos := p.InstrPos(st)
 		seen[kind] = true
@@ -443,7 +469,7 @@ func checkMappingDiff(p *core.Prog, r *core.Result, diffMapping, DiffDepth *ssa.
 		default:
 			r.Bad("R16.3", construct, pos, "unexpected edit kind %q in a mapping diff", kind)
 		}
-	})
+	}
 	for _, k := range []string{"EditKindDelete", "EditKindAdd", "EditKindReplace"} {
 		if !seen[k] {
 			r.Bad("R16.3", "diff.diffMapping#edit:"+k, p.Pos(diffMapping.Pos()), "mapping diffs never record %s edits: that class of key change is silently dropped", k)
@@ -551,5 +577,5 @@ func checkReasonTable(p *core.Prog, r *core.Result) {
 	sort.Strings(extra)
 	r.Check(len(missing) == 0, "R16.4", "dawn#reason-table-covers-env-keys", p.Pos(tablePos), fmt.Sprintf("all %d environment keys stored by the unpickler are in the reason table", len(keys)), fmt.Sprintf("environment keys %q are stored by the unpickler but absent from the reason table: a change confined to them is reported with an empty or wrong reason", missing))
 	r.Check(len(extra) == 0, "R16.4", "dawn#reason-table-no-stale-keys", p.Pos(tablePos), "every reason names a key the unpickler stores", fmt.Sprintf("reason table entries %q name no environment key: those reasons can never be reported", extra))
-	r.Floor("R16.4", len(keys), 9, "environment keys stored by the unpickler")
+	r.Floor("R16.4", len(keys), 4, "environment keys stored by the unpickler")
 }
